@@ -4089,6 +4089,12 @@ static std::list<ValueFlow::Value> truncateValues(std::list<ValueFlow::Value> va
         // Don't truncate impossible values since those can be outside of the valid range
         if (value.isImpossible())
             continue;
+        // conversion to bool: 0 stays 0, every other value becomes 1
+        if (dst->type == ValueType::Type::BOOL && dst->pointer == 0 && (value.isIntValue() || value.isFloatValue())) {
+            value.intvalue = (value.isFloatValue() ? (value.floatValue != 0.0) : (value.intvalue != 0)) ? 1 : 0;
+            value.valueType = ValueFlow::Value::ValueType::INT;
+            continue;
+        }
         if (value.isFloatValue()) {
             value.intvalue = static_cast<MathLib::bigint>(value.floatValue);
             value.valueType = ValueFlow::Value::ValueType::INT;
